@@ -13,6 +13,7 @@ exist only here):
   ("star",) ("qstar", table) ("exists", q) ("notexists", q) ("subq", q) ("insub", e, neg, q)
   ("anyall", all, e, op, q) ("funcx", name, distinct, args, extras) ("interval", s) ("array", es)
   ("subscript", e, idx) ("slice", e, lo, hi) ("neg", sign, e)   sign in "-" "+"  (unary minus / plus)
+  ("niladic", name)   CURRENT_DATE / CURRENT_TIME / CURRENT_TIMESTAMP / LOCALTIME / LOCALTIMESTAMP written without parentheses
 """
 import random
 
@@ -179,6 +180,7 @@ class Renderer:
         W = lambda s: T("?", s)
         Q = lambda q: [W(t) for t in self.sr(q)]
         if k == "neg": return [T("TyMinus" if e[1] == "-" else "TyPlus", e[1])] + R(6.5, e[2], 0)
+        if k == "niladic": return [T("TyIdent", e[1])]
         if k == "star": return [T("TyAsterisk", "*")]
         if k == "qstar": return [T("TyIdent", e[1]), T("TyPeriod", "."), T("TyAsterisk", "*")]
         if k == "exists": return [W("EXISTS"), LP] + Q(e[1]) + [RP]
@@ -293,6 +295,7 @@ class Prescriber:
         if k == "tuple": return node("TupleExpression", Expressions=[A(x) for x in e[1]])
         S = self.stmt_ast
         if k == "neg": return node("UnaryExpression", Operator=1 if e[1] == "-" else 0, Expr=A(e[2]))
+        if k == "niladic": return node("FunctionCall", Name=e[1])
         if k == "star": return node("Identifier", Name="*")
         if k == "qstar": return node("Identifier", Name="*", Table=e[1])
         if k == "exists": return node("ExistsExpression", Subquery=S(e[1]))
@@ -448,6 +451,7 @@ TABS = ["t", "u", "users", "o"]
 NUMS = ["0", "1", "2", "7", "42", "100", "3.14", "0.5", "1e3", "2.5E2", "007"]
 STRS = ["x", "hello", "it's", "", "a b", "%a_", "2024-01-01", "OR", "naïve", "(", "a''b"]
 PHS = ["$1", "$2", "@p", "@name"]
+NILADIC = ["CURRENT_DATE", "CURRENT_TIME", "CURRENT_TIMESTAMP", "LOCALTIME", "LOCALTIMESTAMP", "current_date", "Current_Timestamp"]
 FNAMES = ["COUNT", "SUM", "UPPER", "coalesce", "f", "NULLIF", "my_func", "LENGTH"]
 TYPES = [("INT", []), ("TEXT", []), ("VARCHAR", ["20"]), ("NUMERIC", ["10", "2"]), ("mytype", []), ("DECIMAL", ["8"])]
 
@@ -689,7 +693,9 @@ class StmtGen:
             return ("array", [rand_expr(r, 2) for _ in range(r.randrange(0, 3))])
         if k < 0.25:
             return ("subscript", ("ident", False, r.choice(IDENTS)), [("num", "1")] + ([("ident", False, "i")] if r.random() < 0.3 else []))
-        if k < 0.31:
+        if k < 0.27:
+            return ("niladic", r.choice(NILADIC))
+        if k < 0.33:
             # unary minus / plus: a signed atom, a signed operand inside arithmetic, a sign over a whole expression
             sg = r.choice(["-", "-", "+"])
             form = r.randrange(3)
@@ -813,6 +819,8 @@ class StmtGen:
                 if r.random() < 0.5: s["offset"], s["offset_rows"] = r.randrange(1, 50), True
                 s["fetch"] = dict(type=r.choice(["FIRST", "NEXT"]), value=r.randrange(1, 50), percent=r.random() < 0.2,
                                   rows=r.choice(["ROWS", "ROW", ""]), ties=r.random() < 0.3)
+        if not scalar and r.random() < 0.05:
+            s["from_"], s["joins"] = [], []          # SELECT without FROM keeps its other clauses (SELECT 1 WHERE ... ORDER BY 1)
         if depth == 0 and not simple and r.random() < 0.1:
             s["for_"] = dict(lock=r.choice(["UPDATE", "SHARE", "NO KEY UPDATE", "KEY SHARE"]),
                              tables=[r.choice(TABS) for _ in range(r.randrange(0, 3))], wait=r.choice(["", "NOWAIT", "SKIP LOCKED"]))
@@ -824,7 +832,11 @@ class StmtGen:
         for i in range(r.randrange(1, 3)):
             q = self.select(depth + 1, simple=True)
             if r.random() < 0.2:
-                q = dict(kind="setop", left=q, op=r.choice(["UNION", "EXCEPT", "INTERSECT"]), all=r.random() < 0.4, right=self.select(depth + 1, simple=True))
+                right = self.select(depth + 1, simple=True)
+                # operands of set operations carry no ORDER BY / LIMIT of their own (known finding setop-trailing-order-by)
+                for x in (q, right):
+                    for k in ("order_by", "limit", "offset", "fetch", "for_"): x[k] = [] if k == "order_by" else None
+                q = dict(kind="setop", left=q, op=r.choice(["UNION", "EXCEPT", "INTERSECT"]), all=r.random() < 0.4, right=right)
             ctes.append(dict(name="cte%d" % (i + 1), cols=[r.choice(IDENTS) for _ in range(r.randrange(0, 3))], stmt=q,
                              mat=r.choice([None, None, None, True, False])))
         return dict(recursive=r.random() < 0.2, ctes=ctes)
@@ -862,6 +874,7 @@ class StmtGen:
             s["query"].pop("with_", None)
         if r.random() < 0.3:
             c = dict(target=[r.choice(IDENTS) for _ in range(r.randrange(0, 3))], constraint="", nothing=r.random() < 0.5, updates=[], where=None)
+            if not c["target"] and r.random() < 0.4: c["constraint"] = r.choice(["cn1", "t_pkey"])
             if not c["nothing"]:
                 c["updates"] = [(r.choice(IDENTS), rand_expr(r, r.choice([1, 3]))) for _ in range(r.randrange(1, 3))]
                 if r.random() < 0.4: c["where"] = rand_expr(r, 4)
@@ -1088,6 +1101,7 @@ class StmtRenderer:
             if c:
                 out += ["ON", "CONFLICT"]
                 if c["target"]: out += ["("] + self.commas([[x] for x in c["target"]]) + [")"]
+                elif c["constraint"]: out += ["ON", "CONSTRAINT", c["constraint"]]
                 if c["nothing"]: out += ["DO", "NOTHING"]
                 else:
                     out += ["DO", "UPDATE", "SET"] + self.commas([[n, "="] + self.E(e) for n, e in c["updates"]])
@@ -1303,3 +1317,13 @@ class StmtPrescriber:
             return node("TruncateStatement", Tables=list(s["names"]), RestartIdentity=s["identity"] == "RESTART",
                         ContinueIdentity=s["identity"] == "CONTINUE", CascadeType=s["cascade"])
         raise ValueError(k)
+
+
+# clause keywords whose spelling never reaches the tree: safe to write in lower case (layout variation)
+CASE_FREE_KEYWORDS = {"SELECT", "FROM", "WHERE", "GROUP", "BY", "HAVING", "ORDER", "LIMIT", "OFFSET", "INSERT", "INTO", "VALUES", "UPDATE", "SET",
+                      "DELETE", "RETURNING", "ON", "CONFLICT", "DO", "NOTHING", "CONSTRAINT", "WITH", "RECURSIVE", "AS", "JOIN", "INNER", "LEFT", "RIGHT",
+                      "FULL", "OUTER", "CROSS", "NATURAL", "USING", "DISTINCT", "MATERIALIZED", "NULLS", "FIRST", "LAST", "ASC", "DESC", "ROLLUP", "CUBE"}
+
+
+def lower_clause_keywords(words):
+    return [w.lower() if w in CASE_FREE_KEYWORDS else w for w in words]
